@@ -78,21 +78,24 @@ def fltSign (b : Nat) : Bool := (b / 2 ^ 63) % 2 == 1
 def fltExp (b : Nat) : Nat := (b / 2 ^ 52) % 2048
 def fltMant (b : Nat) : Nat := b % 2 ^ 52
 
-/-- exact value of an IEEE-754 binary64 bit pattern as numerator/denominator (denominator a
-    power of two, positive). `none` for NaN. The infinities are given the values `±2^1024`
-    (what the finite formula yields for exponent 2047), which orders them correctly against
-    every finite double. Total: bits above 2^64 are ignored. -/
-def fltToRat (b : Nat) : Option (Int × Nat) :=
+/-- the value of a non-NaN IEEE-754 binary64 bit pattern multiplied by `2^1075` — an integer
+    (`±significand · 2^exponent-field`, subnormals use exponent field 1 and no hidden bit).
+    `none` for NaN. The infinities get `±2^52 · 2^2047`, i.e. the value `±2^1024` that the
+    finite formula yields, which orders them correctly against every finite double. Total:
+    bits above 2^64 are ignored. -/
+def fltScaled (b : Nat) : Option Int :=
   let e := fltExp b
   let m := fltMant b
   if e = 2047 ∧ m ≠ 0 then none
   else
     let sig : Nat := if e = 0 then m else m + 2 ^ 52
     let ex : Nat := if e = 0 then 1 else e
-    -- |value| = sig * 2^(ex - 1075)
-    let mag : Nat × Nat :=
-      if 1075 ≤ ex then (sig * 2 ^ (ex - 1075), 1) else (sig, 2 ^ (1075 - ex))
-    some (if fltSign b then -(mag.1 : Int) else (mag.1 : Int), mag.2)
+    let mag : Nat := sig * 2 ^ ex
+    some (if fltSign b then -(mag : Int) else (mag : Int))
+
+/-- exact value of a double as numerator/denominator (`none` for NaN): `fltScaled / 2^1075`
+    (not in lowest terms). -/
+def fltToRat (b : Nat) : Option (Int × Nat) := (fltScaled b).map fun n => (n, 2 ^ 1075)
 
 /-- `OrderedFloat<f64>::cmp`: by value (`-0.0 = 0.0`), every NaN equal to every NaN and
     greater than every number. -/
